@@ -42,15 +42,21 @@ def gen_scene(rnd):
 def with_resize(sc, rnd):
     """after the drag, one node (mostly the dragged one: edges now bend round its corners) is resized about its centre"""
     nodes, edges, drag, steps, dx, dy = sc
+    # single-axis drags: half of them keep ONE TopologyConstraints instance for all steps (re-solves after the desired positions moved)
+    reuse = 1 if (dx == 0) != (dy == 0) and rnd.random() < 0.5 else 0
+    # ... and then a second node is dragged along the same axis, either way, on that same instance
+    # (not generated: on the unchanged tree such a second drag already trips assertConvexBend in about 2% of the runs, and nothing says that
+    #  re-targeting another node on a used instance is supported -- libtopology itself builds a new instance for every move; DESIGN 11, c13d)
+    second = (-1, 0, 0)
     if rnd.random() < 0.45:
-        return sc + (-1, 0, 0)
+        return sc + (-1, 0, 0, reuse) + second
     rz = drag if rnd.random() < 0.6 else rnd.randrange(len(nodes))
     w, h = nodes[rz][2], nodes[rz][3]
     rw = rnd.choice([w, w + 8, w + 24, max(4, w - 6)])
     rh = rnd.choice([h, h + 8, h + 24, max(4, h - 6)])
     if (rw, rh) == (w, h):
         rh = h + 16
-    return sc + (rz, rw, rh)
+    return sc + (rz, rw, rh, reuse) + second
 
 
 def abutting_scene(rnd):
@@ -112,8 +118,8 @@ def main(tier):
     scenes = [with_resize(sc, rnd) for sc in scenes]
     sf = os.path.join(d, 'scenes.txt')
     with open(sf, 'w') as f:
-        for nodes, edges, drag, steps, dx, dy, rz, rw, rh in scenes:
-            row = [len(nodes)] + [v for nd in nodes for v in nd] + [len(edges)] + [v for e in edges for v in e] + [drag, steps, dx, dy, rz, rw, rh]
+        for nodes, edges, drag, steps, dx, dy, rz, rw, rh, reuse, drag2, steps2, d2 in scenes:
+            row = [len(nodes)] + [v for nd in nodes for v in nd] + [len(edges)] + [v for e in edges for v in e] + [drag, steps, dx, dy, rz, rw, rh, reuse, drag2, steps2, d2]
             f.write(' '.join(map(str, row)) + '\n')
     of = os.path.join(d, 'topo.json')
     rc, out = V.run(['timeout', '1500', ht, 'run', sf, of], timeout=1600)
@@ -132,9 +138,9 @@ def main(tier):
                 m = re.search(r'expression: (.*?)(\n| \||$)', what)
                 ml = re.search(r'at line (\d+) of \S*/(\w+\.cpp)', what)
                 key = ('assertion:' + re.sub(r'[^A-Za-z0-9_>!=<.()-]+', '', m.group(1))[:50] + ('@' + ml.group(2) if ml else '')) if m else 'exception:' + what[:40]
-            nodes, edges, drag, steps, dx, dy, rz, rw, rh = scenes[i - 1]
+            nodes, edges, drag, steps, dx, dy, rz, rw, rh, reuse, drag2, steps2, d2 = scenes[i - 1]
             vd.violation(key, '%s %s nodes(x,y,w,h)=%s edges=%s drag=%d by (%d,%d) x%d resize=%s' % (t, what[:150].replace('\n', ' '), nodes, edges, drag, dx, dy, steps, (rz, rw, rh) if rz >= 0 else None),
-                         {'nodes': nodes, 'edges': edges, 'drag': drag, 'steps': steps, 'dx': dx, 'dy': dy, 'resize': [rz, rw, rh], 'what': what})
+                         {'nodes': nodes, 'edges': edges, 'drag': drag, 'steps': steps, 'dx': dx, 'dy': dy, 'resize': [rz, rw, rh], 'one_instance': reuse, 'second_drag': [drag2, steps2, d2], 'what': what})
     ev.cov['evaluations'] = sum(len(x['states']) for x in data['recs'])
     ev.cov['distinct_nontrivial'] = nontriv
     ev.cov['traces_validated_against_impl'] = len(data['recs'])
